@@ -198,6 +198,8 @@ class Run:
             self.sinks = sinks
             self.ops = ops_log
             self.added = added
+            self.builtin_levels = logger._core.builtin_levels
+            self.custom_levels = {op[1] for ops in prog["threads"] for op in ops if op[0] == "newlevel"}
             self.final_handlers = sorted(logger._core.handlers.keys())
             self.hstopped = {h._id: object.__getattribute__(h, "_stopped") for h in sched.HANDLERS}
         return self
@@ -375,6 +377,8 @@ def run(ctx):
     drv_meta = []
     act_lines = []
     act_meta = []
+    lvl_lines = []
+    lvl_meta = []
     nviol = [0]
 
     def judge(r, sched_list, program, how):
@@ -403,6 +407,12 @@ def run(ctx):
                 if got is not None:
                     act_lines.extend(got[0])
                     act_meta.append((program, list(s.choices), mod, got))
+        if not bad and len(lvl_lines) < ctx.n(40000, 400000) and r.custom_levels:
+            from harness import c02_trace
+            got = c02_trace.lvl_lines(r)
+            if got is not None:
+                lvl_lines.extend(got[0])
+                lvl_meta.append((program, list(s.choices), got))
         return bad
 
     # corpus first
@@ -495,6 +505,24 @@ def run(ctx):
             if dis:
                 ctx.stat("activation_disagreements")
                 ctx.broke("correspondence Activation.accepts",
+                          "%s\nprogram=%s schedule=%s" % (dis[0], json.dumps(program), json.dumps(schedule)))
+                break
+
+    # third acceptor: the level-table accesses replayed on Levels.step
+    if lvl_lines:
+        from harness import c02_trace
+        out = core.Driver("C02lvl").run(lvl_lines)
+        pos = 0
+        for program, schedule, (lines, meta) in lvl_meta:
+            chunk = out[pos:pos + len(lines)]
+            pos += len(lines)
+            ctx.stat("level_traces")
+            ctx.stat("level_emits_compared", sum(1 for m in meta if m and m[0] == "emit" and m[2] is not None))
+            ctx.stat("level_lookups_missing", sum(1 for m in meta if m and m[0] == "lookup" and not m[1]))
+            dis = c02_trace.lvl_judge(lines, meta, chunk)
+            if dis:
+                ctx.stat("level_disagreements")
+                ctx.broke("correspondence Levels.accepts",
                           "%s\nprogram=%s schedule=%s" % (dis[0], json.dumps(program), json.dumps(schedule)))
                 break
 
